@@ -70,11 +70,24 @@ macro_rules! with_attr_value {
             9 => { let $x = ArcRwSignal::new(v); $body }
             10 => { let $x = ArcMemo::new(move |_| v.clone()); $body }
             11 => { let $x = Some(leak(v)); $body }
+            // every representation of Oco (Oco::from(String) above is Owned)
+            12 => { let $x: Oco<'static, str> = Oco::Borrowed(leak(v)); $body }
+            13 => { let $x: Oco<'static, str> = Oco::Counted(Arc::from(v)); $body }
+            14 => { let $x: Option<Oco<'static, str>> = Some(Oco::Borrowed(leak(v))); $body }
+            15 => { let $x: Option<Oco<'static, str>> = Some(Oco::Counted(Arc::from(v))); $body }
+            16 => { let $x: Option<Oco<'static, str>> = Some(Oco::Owned(v)); $body }
+            17 => { let l = leak(v); let $x = move || Oco::<'static, str>::Borrowed(l); $body }
+            18 => { let a: Arc<str> = Arc::from(v); let $x = move || Oco::<'static, str>::Counted(a.clone()); $body }
+            19 => { let $x: Option<Arc<str>> = Some(Arc::from(v)); $body }
+            20 => { let l = leak(v); let $x = move || l; $body }
+            21 => { let a: Arc<str> = Arc::from(v); let $x = move || a.clone(); $body }
+            22 => { let $x = ArcRwSignal::new(Oco::<'static, str>::Borrowed(leak(v))); $body }
+            23 => { let l = leak(v); let $x = move || Some(Oco::<'static, str>::Borrowed(l)); $body }
             _ => { let $x = v; $body }
         }
     }};
 }
-pub const N_ATTR_TYPES: i64 = 12;
+pub const N_ATTR_TYPES: i64 = 24;
 
 /// a class string as one of the types that implement `IntoClass` (html/class.rs, oco.rs,
 /// reactive_graph/class.rs)
@@ -92,11 +105,22 @@ macro_rules! with_class_value {
             8 => { let $x = ArcRwSignal::new(v); $body }
             9 => { let $x = move || Some(v.clone()); $body }
             10 => { let $x: Cow<'static, str> = Cow::Borrowed(leak(v)); $body }
+            11 => { let $x: Oco<'static, str> = Oco::Borrowed(leak(v)); $body }
+            12 => { let $x: Oco<'static, str> = Oco::Counted(Arc::from(v)); $body }
+            13 => { let $x: Option<Oco<'static, str>> = Some(Oco::Borrowed(leak(v))); $body }
+            14 => { let l = leak(v); let $x = move || Oco::<'static, str>::Borrowed(l); $body }
+            15 => { let a: Arc<str> = Arc::from(v); let $x = move || Oco::<'static, str>::Counted(a.clone()); $body }
+            16 => { let l = leak(v); let $x = move || l; $body }
+            17 => { let $x = Some(leak(v)); $body }
+            18 => { let $x: Option<Arc<str>> = Some(Arc::from(v)); $body }
+            19 => { let a: Arc<str> = Arc::from(v); let $x = move || a.clone(); $body }
+            20 => { let l = leak(v); let $x = move || Cow::<'static, str>::Borrowed(l); $body }
+            21 => { let $x: Option<Cow<'static, str>> = Some(Cow::Borrowed(leak(v))); $body }
             _ => { let $x = v; $body }
         }
     }};
 }
-pub const N_CLASS_TYPES: i64 = 11;
+pub const N_CLASS_TYPES: i64 = 22;
 
 /// a whole style string as one of the types that implement `IntoStyle` (html/style.rs,
 /// oco.rs, reactive_graph/style.rs)
@@ -113,11 +137,20 @@ macro_rules! with_style_value {
             7 => { let $x = ArcRwSignal::new(v); $body }
             8 => { let $x = move || Some(v.clone()); $body }
             9 => { let $x = Some(Oco::<'static, str>::from(v)); $body }
+            10 => { let $x: Oco<'static, str> = Oco::Borrowed(leak(v)); $body }
+            11 => { let $x: Oco<'static, str> = Oco::Counted(Arc::from(v)); $body }
+            12 => { let $x: Option<Oco<'static, str>> = Some(Oco::Borrowed(leak(v))); $body }
+            13 => { let l = leak(v); let $x = move || Oco::<'static, str>::Borrowed(l); $body }
+            14 => { let a: Arc<str> = Arc::from(v); let $x = move || Oco::<'static, str>::Counted(a.clone()); $body }
+            15 => { let l = leak(v); let $x = move || l; $body }
+            16 => { let $x = Some(leak(v)); $body }
+            17 => { let $x: Option<Arc<str>> = Some(Arc::from(v)); $body }
+            18 => { let a: Arc<str> = Arc::from(v); let $x = move || a.clone(); $body }
             _ => { let $x = v; $body }
         }
     }};
 }
-pub const N_STYLE_TYPES: i64 = 10;
+pub const N_STYLE_TYPES: i64 = 19;
 
 /// a style property value as one of the types that implement `IntoStyleValue`
 macro_rules! with_style_prop_value {
@@ -132,11 +165,18 @@ macro_rules! with_style_prop_value {
             6 => { let $x = move || Oco::<'static, str>::from(v.clone()); $body }
             7 => { let $x = ArcRwSignal::new(v); $body }
             8 => { let $x = Some(leak(v)); $body }
+            9 => { let $x: Oco<'static, str> = Oco::Borrowed(leak(v)); $body }
+            10 => { let $x: Oco<'static, str> = Oco::Counted(Arc::from(v)); $body }
+            11 => { let $x: Option<Oco<'static, str>> = Some(Oco::Borrowed(leak(v))); $body }
+            12 => { let l = leak(v); let $x = move || Oco::<'static, str>::Borrowed(l); $body }
+            13 => { let l = leak(v); let $x = move || l; $body }
+            14 => { let $x: Option<Arc<str>> = Some(Arc::from(v)); $body }
+            15 => { let a: Arc<str> = Arc::from(v); let $x = move || a.clone(); $body }
             _ => { let $x = v; $body }
         }
     }};
 }
-pub const N_PROP_TYPES: i64 = 9;
+pub const N_PROP_TYPES: i64 = 16;
 
 fn attrs(s: &Sexp) -> Vec<AnyAttribute> {
     s.list()
@@ -195,10 +235,32 @@ fn text_child(ty: i64, v: String) -> AnyView {
         6 => Some(v).into_any(),
         7 => (move || Oco::<'static, str>::from(v.clone())).into_any(),
         8 => ArcRwSignal::new(v).into_any(),
+        9 => Oco::<'static, str>::Borrowed(leak(v)).into_any(),
+        10 => Oco::<'static, str>::Counted(Arc::from(v)).into_any(),
+        11 => Cow::<'static, str>::Borrowed(leak(v)).into_any(),
+        12 => {
+            let l = leak(v);
+            (move || Oco::<'static, str>::Borrowed(l)).into_any()
+        }
+        13 => {
+            let l = leak(v);
+            (move || l).into_any()
+        }
+        14 => {
+            let a: Arc<str> = Arc::from(v);
+            (move || a.clone()).into_any()
+        }
+        15 => Some(leak(v)).into_any(),
+        16 => Some(Oco::<'static, str>::Borrowed(leak(v))).into_any(),
+        17 => {
+            let l = leak(v);
+            (move || Cow::<'static, str>::Borrowed(l)).into_any()
+        }
+        18 => ArcRwSignal::new(Oco::<'static, str>::Borrowed(leak(v))).into_any(),
         _ => v.into_any(),
     }
 }
-pub const N_TEXT_TYPES: i64 = 9;
+pub const N_TEXT_TYPES: i64 = 19;
 
 fn seq(mut v: Vec<AnyView>) -> AnyView {
     let first = v.remove(0);
